@@ -706,6 +706,4 @@ func cmdReplay(path string) int {
 	return 0
 }
 
-func runLockset(prog *Prog, pf *PropFile) []*Obligation { return nil }
-
 var _ = token.NoPos
